@@ -56,15 +56,21 @@ def gen(ctx):
     el = elem_texts()
     for a in el:
         add(a)
-    # (i) all ordered pairs of directive texts (duplicates, first-wins, interaction between names), sampled triples
+    # texts that exercise one of today's known deviations are kept to a minority of the longer lists, so that most
+    # cases exercise the property beyond them
+    plain = [e for e in el if not any(features(e.encode('latin-1')))]
+    pick = lambda: rnd.choice(plain) if rnd.random() < 0.85 else rnd.choice(el)
+    # (i) ordered pairs of directive texts (duplicates, first-wins, interaction between names), sampled longer lists
     for a in el:
         for b in el:
-            if ctx.thorough or rnd.random() < 0.35 or a.split('=')[0].lower() == b.split('=')[0].lower():
+            same = a.split('=')[0].lower() == b.split('=')[0].lower()
+            np = (a in plain) + (b in plain)
+            if same or (np == 2 and (ctx.thorough or rnd.random() < 0.5)) or (np == 1 and rnd.random() < (0.3 if ctx.thorough else 0.06)):
                 add(a + ', ' + b)
     seps = [',', ', ', ' ,', ' , ', ',\t', ',,', ', ,', ' ,\t, ']
     for _ in range(20000 if ctx.thorough else 4000):
         k = rnd.choice([2, 3, 3, 4, 6])
-        add(rnd.choice(['', '', ' ', ',']) + rnd.choice(seps).join(rnd.choice(el) for _ in range(k)) + rnd.choice(['', '', ' ', ',', '\t']))
+        add(rnd.choice(['', '', ' ', ',']) + rnd.choice(seps).join(pick() for _ in range(k)) + rnd.choice(['', '', ' ', ',', '\t']))
     # (ii) numbers around every boundary for every numeric directive
     for n in NUMS:
         for base in (0, 2 ** 31, 2 ** 32, 2 ** 63, 2 ** 64):
@@ -75,7 +81,7 @@ def gen(ctx):
                     add('public, %s=%d' % (n, base + d))
                     add('%s=%d, %s=%d' % (n, 3, n, base + d))
     # (iii) seeded random: case changes, random quoted contents, byte mutations
-    qalpha = 'ab, \t-=\\"\xe9;'
+    qalpha = 'abcab,  --==\t\\"\xe9;'
     alpha = 'ae-=", \t0159+x\;'
     for _ in range(12000 if ctx.thorough else 2500):
         parts = []
@@ -84,7 +90,7 @@ def gen(ctx):
             if r < 0.3:
                 d = rnd.choice(FLAGS)
             elif r < 0.6:
-                d = rnd.choice(NUMS) + '=' + (rnd.choice(NUMARGS) if rnd.random() < 0.5 else str(rnd.choice([rnd.randint(0, 100000), rnd.randint(0, 2 ** 33), rnd.randint(0, 2 ** 65)])))
+                d = rnd.choice(NUMS) + '=' + (rnd.choice(NUMARGS) if rnd.random() < 0.25 else str(rnd.choice([rnd.randint(0, 100000), rnd.randint(0, 2 ** 33), rnd.randint(0, 2 ** 65)])))
             elif r < 0.85:
                 q = ''.join(rnd.choice(qalpha) for _ in range(rnd.randint(0, 8)))
                 d = rnd.choice(LISTS) + rnd.choice(['=', '=', '']) + ('"' + q + '"' if rnd.random() < 0.8 else q)
